@@ -477,7 +477,8 @@ class DatasetProcessor:
 
     def process_all_samples(self, input_data):
         logger.info("Processing " + proper_plural_form("experiment", len(input_data.samples)))
-        for sample in input_data.samples:
+        for sample_index, sample in enumerate(input_data.samples):
+            self.current_sample_index = sample_index
             self.process_sample(sample)
         logger.info("Processed " + proper_plural_form("experiment", len(input_data.samples)))
 
@@ -507,7 +508,9 @@ class DatasetProcessor:
             open(fname, "w").close()
 
         if self.args.read_assignments:
-            saves_file = self.args.read_assignments[0]
+            # one set of saved assignments per experiment (a single one is used for a single experiment)
+            saves_index = getattr(self, "current_sample_index", 0) if len(self.args.read_assignments) > 1 else 0
+            saves_file = self.args.read_assignments[saves_index]
             logger.info('Using read assignments from {}*'.format(saves_file))
             # alignments are not collected again: the number of unaligned reads comes from the saved info
             self.alignment_stat_counter.add(AlignmentType.unaligned, self.load_unaligned_read_count(saves_file))
